@@ -4,9 +4,9 @@ S = 'tlx/string/'
 CAP = ['--alloc-cap', '128']
 ALL = ['base64.cpp', 'hexdump.cpp', 'split.cpp', 'join_quoted.cpp', 'split_quoted.cpp', 'replace.cpp', 'trim.cpp', 'erase_all.cpp', 'pad.cpp', 'starts_with.cpp', 'ends_with.cpp', 'contains.cpp', 'to_lower.cpp', 'to_upper.cpp', 'compare_icase.cpp', 'equal_icase.cpp']
 
-def Q(name, entry, desc, defs, link, quick=True, timeout=None, **kw):
+def Q(name, entry, desc, defs, link, quick=True, timeout=None, extra_ll2c=(), **kw):
     link = ALL
-    return Query(name, SRC, entry, desc, defs=defs, link=[S + l for l in link], ll2c=CAP, tiers=('quick', 'thorough') if quick else ('thorough',),
+    return Query(name, SRC, entry, desc, defs=defs, link=[S + l for l in link], ll2c=CAP + list(extra_ll2c), tiers=('quick', 'thorough') if quick else ('thorough',),
                  timeout=timeout or (900 if quick else 3600), unwind=4, **kw)
 
 def queries():
@@ -25,9 +25,9 @@ def queries():
     for parts in (1, 2, 3):
         for seplen in (1, 2):
             qs.append(Q('split_p%d_s%d' % (parts, seplen), 'h_split', 'split(%s sep, join(parts)) == parts and limit semantics; %d parts of length 0..2 over {sep bytes, a, NUL, 0xFF}' % ('char' if seplen == 1 else '2-byte string', parts),
-                        ['NPARTS=%d' % parts, 'SEPLEN=%d' % seplen, 'M=2'], ['split.cpp'], quick=parts <= 2, weight=parts * 4))
+                        ['NPARTS=%d' % parts, 'SEPLEN=%d' % seplen, 'M=2'], ['split.cpp'], quick=parts <= 2, weight=parts * 4, extra_ll2c=['--unreachable', '_M_realloc_insert']))
         qs.append(Q('quoted_p%d' % parts, 'h_quoted', 'split_quoted(join_quoted(v)) == v; %d fields of length 0..2 over {space, quote, backslash, newline, tab, a, n}' % parts,
-                    ['NPARTS=%d' % parts, 'M=2'], ['join_quoted.cpp', 'split_quoted.cpp'], quick=parts <= 2, weight=parts * 4))
+                    ['NPARTS=%d' % parts, 'M=2'], ['join_quoted.cpp', 'split_quoted.cpp'], quick=parts <= 2, weight=parts * 4, extra_ll2c=['--model-string-vector-growth', '4']))
     for n, m in ((0, 0), (1, 1), (2, 1), (3, 1), (3, 2), (4, 2), (4, 3)):
         quick = (n, m) in ((0, 0), (2, 1), (3, 2))
         qs.append(Q('helpersA_n%d_m%d' % (n, m), 'h_helpers_a', 'replace_first/all, trim family, erase_all, pad vs definitional loops; string length %d, needle/drop-set length %d, replacement length 0..2' % (n, m),
@@ -36,7 +36,8 @@ def queries():
                     ['N=%d' % n, 'M=%d' % m], ['starts_with.cpp', 'ends_with.cpp', 'contains.cpp', 'to_lower.cpp', 'to_upper.cpp', 'compare_icase.cpp', 'equal_icase.cpp'], quick=quick, weight=n * 3))
     return qs
 
-ASSUMPTIONS = ['tlx::join (std::ostringstream: locale, virtual dispatch, binary libstdc++) cannot be encoded; the join side of the split round trip is the definitional concatenation',
+ASSUMPTIONS = ['std::vector<std::string> reallocation (libstdc++ environment code) is either kept off the path by a pre-reserved vector (split) or replaced by a contract model: fixed capacity of 4 strings, bitwise move with small-string pointer fix-up, append only (split_quoted/join_quoted); both preconditions are asserted',
+               'tlx::join (std::ostringstream: locale, virtual dispatch, binary libstdc++) cannot be encoded; the join side of the split round trip is the definitional concatenation',
                'variable-size heap allocations (std::string beyond SSO, std::vector growth) are modelled with a fixed 128-byte block and an assertion that the request fits (ll2c --alloc-cap)',
                'libstdc++ exception constructors are body-less stubs (only the exception type is observed)']
 OUTSIDE = ['tlx::join itself', 'messages longer than 8 bytes (base64) / 6 bytes (hexdump), more than 3 parts, parts longer than 2 bytes, helper arguments longer than 4 bytes', 'hexdump_sourcecode (ostringstream)']
